@@ -1,12 +1,229 @@
-(* Proofs about Model/Jose.v (C16, and the JOSE decoders of C07). *)
+(* Proofs about Model/Jose.v (C16, and the JOSE decoders of C07): base64url. *)
 From Verif Require Import Lib.Base Lib.Sx Model.Jose.
 Open Scope N_scope.
+Ltac Zify.zify_post_hook ::= Z.div_mod_to_equations.
 
-Lemma b64_char_not_dot v : b64_char v <> ch_dot.
+(* ------------------------------------------------------------------ generic *)
+Lemma lenN_acc_spec l : forall a, lenN_acc a l = a + N.of_nat (length l).
+Proof. induction l as [|x l IH]; intro a; cbn [lenN_acc length]; [lia|rewrite IH; lia]. Qed.
+Lemma lenN_length l : lenN l = N.of_nat (length l).
+Proof. unfold lenN. rewrite lenN_acc_spec. lia. Qed.
+Lemma lenN_cons x l : lenN (x :: l) = 1 + lenN l.
+Proof. rewrite !lenN_length. cbn [length]. lia. Qed.
+Lemma lenN_app a b : lenN (a ++ b) = lenN a + lenN b.
+Proof. rewrite !lenN_length, app_length. lia. Qed.
+Lemma lenN_nil : lenN [] = 0.
+Proof. reflexivity. Qed.
+
+Lemma list_ind3 (P : bytes -> Prop) :
+  P [] -> (forall x, P [x]) -> (forall x y, P [x; y]) ->
+  (forall x y z t, P t -> P (x :: y :: z :: t)) -> forall l, P l.
 Proof.
-  unfold b64_char, ch_dot.
+  intros H0 H1 H2 H3. fix IH 1.
+  intros [|x [|y [|z t]]]; [exact H0 | apply H1 | apply H2 | apply H3; apply IH].
+Qed.
+
+Lemma in_range_64 v : v < 64 -> In v (map N.of_nat (seq 0 64)).
+Proof.
+  intro H. replace v with (N.of_nat (N.to_nat v)) by lia.
+  apply in_map, in_seq. lia.
+Qed.
+
+Lemma bytes_eqb_eq a : forall b, bytes_eqb a b = true <-> a = b.
+Proof.
+  induction a as [|x a IH]; intros [|y b]; cbn [bytes_eqb]; split; intro H; try discriminate; auto.
+  - apply andb_true_iff in H. destruct H as [H1 H2]. apply N.eqb_eq in H1. apply IH in H2. congruence.
+  - inversion H; subst. rewrite N.eqb_refl. cbn. apply IH. reflexivity.
+Qed.
+Lemma bytes_eqb_refl a : bytes_eqb a a = true.
+Proof. apply bytes_eqb_eq. reflexivity. Qed.
+
+(* ------------------------------------------------------------------ alphabet *)
+Definition is_b64_char (c : N) : Prop :=
+  (65 <= c <= 90) \/ (97 <= c <= 122) \/ (48 <= c <= 57) \/ c = 45 \/ c = 95.
+
+Lemma b64_char_is v : is_b64_char (b64_char v).
+Proof.
+  unfold b64_char, is_b64_char.
   destruct (N.ltb_spec v 26); [lia|].
   destruct (N.ltb_spec v 52); [lia|].
   destruct (N.ltb_spec v 62); [lia|].
   destruct (N.eqb_spec v 62); lia.
 Qed.
+
+Lemma b64_char_not_dot v : b64_char v <> ch_dot.
+Proof. pose proof (b64_char_is v) as H. unfold is_b64_char, ch_dot in *. lia. Qed.
+Lemma b64_char_not_eq v : b64_char v <> ch_eq.
+Proof. pose proof (b64_char_is v) as H. unfold is_b64_char, ch_eq in *. lia. Qed.
+Lemma b64_char_not_crlf v : not_crlf (b64_char v) = true.
+Proof.
+  pose proof (b64_char_is v) as H. unfold is_b64_char, not_crlf, is_crlf in *.
+  destruct (N.eqb_spec (b64_char v) 10); [lia|]. destruct (N.eqb_spec (b64_char v) 13); [lia|]. reflexivity.
+Qed.
+
+Lemma b64_val_char v : v < 64 -> b64_val (b64_char v) = Some v.
+Proof.
+  intro H.
+  assert (S : forallb (fun v => match b64_val (b64_char v) with Some w => w =? v | None => false end)
+                (map N.of_nat (seq 0 64)) = true) by (vm_compute; reflexivity).
+  rewrite forallb_forall in S. specialize (S v (in_range_64 v H)).
+  destruct (b64_val (b64_char v)); [apply N.eqb_eq in S; subst; auto | discriminate].
+Qed.
+
+Lemma b64_val_eq : b64_val ch_eq = None.
+Proof. reflexivity. Qed.
+
+Lemma b64_val_lt c v : b64_val c = Some v -> v < 64.
+Proof.
+  unfold b64_val.
+  destruct ((65 <=? c) && (c <=? 90)) eqn:E1.
+  { apply andb_true_iff in E1. destruct E1 as [A B]. apply N.leb_le in A, B. intro E; inversion E; lia. }
+  destruct ((97 <=? c) && (c <=? 122)) eqn:E2.
+  { apply andb_true_iff in E2. destruct E2 as [A B]. apply N.leb_le in A, B. intro E; inversion E; lia. }
+  destruct ((48 <=? c) && (c <=? 57)) eqn:E3.
+  { apply andb_true_iff in E3. destruct E3 as [A B]. apply N.leb_le in A, B. intro E; inversion E; lia. }
+  destruct (c =? 45); [intro E; inversion E; lia|].
+  destruct (c =? 95); [intro E; inversion E; lia|]. discriminate.
+Qed.
+
+(* ------------------------------------------------------------------ encoder *)
+Definition b64_pad (b : bytes) : bytes :=
+  match (length b mod 3)%nat with 1%nat => [ch_eq; ch_eq] | 2%nat => [ch_eq] | _ => [] end.
+
+Lemma b64_enc_no_eq b : Forall (fun c => c <> ch_eq) (b64_enc b).
+Proof.
+  induction b using list_ind3; cbn [b64_enc]; repeat constructor; auto using b64_char_not_eq.
+Qed.
+Lemma b64_enc_no_dot b : Forall (fun c => c <> ch_dot) (b64_enc b).
+Proof.
+  induction b using list_ind3; cbn [b64_enc]; repeat constructor; auto using b64_char_not_dot.
+Qed.
+Lemma b64_enc_alphabet b : Forall is_b64_char (b64_enc b).
+Proof.
+  induction b using list_ind3; cbn [b64_enc]; repeat (apply Forall_cons; [apply b64_char_is|]); auto.
+Qed.
+
+(* the padded encoder is the direct encoder followed by 0, 1 or 2 '=' *)
+Lemma b64_enc_padded_split b :
+  exists pad, b64_enc_padded b = b64_enc b ++ pad /\ (pad = [] \/ pad = [ch_eq] \/ pad = [ch_eq; ch_eq]).
+Proof.
+  induction b as [| x | x y | x y z t IH] using list_ind3.
+  - exists []. cbn. auto.
+  - exists [ch_eq; ch_eq]. cbn. auto.
+  - exists [ch_eq]. cbn. auto.
+  - destruct IH as (pad & E & Hp). exists pad. cbn [b64_enc_padded b64_enc]. rewrite E. cbn [app]. auto.
+Qed.
+
+Lemma drop_eq_all_eq pad l : Forall (fun c => c = ch_eq) pad -> drop_eq (pad ++ l) = drop_eq l.
+Proof.
+  induction 1 as [|c pad Hc _ IH]; cbn [app drop_eq]; auto. subst c. rewrite N.eqb_refl. exact IH.
+Qed.
+
+Lemma drop_eq_rev_no_eq l : Forall (fun c => c <> ch_eq) l -> drop_eq (rev l) = rev l.
+Proof.
+  intro H. apply Forall_rev in H. destruct (rev l) as [|c r]; [reflexivity|].
+  inversion H; subst. cbn [drop_eq]. destruct (N.eqb_spec c ch_eq); [contradiction|reflexivity].
+Qed.
+
+Lemma trim_right_eq_app l pad :
+  Forall (fun c => c <> ch_eq) l -> Forall (fun c => c = ch_eq) pad -> trim_right_eq (l ++ pad) = l.
+Proof.
+  intros Hl Hp. unfold trim_right_eq. rewrite rev_app_distr.
+  rewrite drop_eq_all_eq by (apply Forall_rev; exact Hp).
+  rewrite drop_eq_rev_no_eq by exact Hl. apply rev_involutive.
+Qed.
+
+(* base64URLEncode = the unpadded encoding *)
+Lemma b64url_encode_direct b : b64url_encode b = b64_enc b.
+Proof.
+  unfold b64url_encode. destruct (b64_enc_padded_split b) as (pad & E & Hp). rewrite E.
+  apply trim_right_eq_app; [apply b64_enc_no_eq|].
+  destruct Hp as [->|[->| ->]]; repeat constructor.
+Qed.
+
+(* the padding arithmetic of base64URLDecode restores exactly the stripped padding *)
+Lemma b64_missing_padding b :
+  b64_enc b ++ repeatN ch_eq ((4 - lenN (b64_enc b) mod 4) mod 4) = b64_enc_padded b.
+Proof.
+  induction b as [| x | x y | x y z t IH] using list_ind3; try reflexivity.
+  cbn [b64_enc b64_enc_padded]. rewrite <- IH. cbn [app]. do 4 f_equal.
+  rewrite !lenN_cons.
+  replace (1 + (1 + (1 + (1 + lenN (b64_enc t))))) with (lenN (b64_enc t) + 1 * 4) by lia.
+  rewrite N.mod_add by lia. reflexivity.
+Qed.
+
+Lemma b64_enc_padded_no_crlf b : filter not_crlf (b64_enc_padded b) = b64_enc_padded b.
+Proof.
+  induction b as [| x | x y | x y z t IH] using list_ind3; cbn [b64_enc_padded filter];
+    rewrite ?b64_char_not_crlf; try reflexivity.
+  rewrite IH. reflexivity.
+Qed.
+
+Lemma byte_quanta x y z :
+  x < 256 -> y < 256 -> z < 256 ->
+  x / 4 < 64 /\ (x mod 4) * 16 + y / 16 < 64 /\ (y mod 16) * 4 + z / 64 < 64 /\ z mod 64 < 64 /\
+  (x mod 4) * 16 < 64 /\ (y mod 16) * 4 < 64.
+Proof. intros. repeat split; lia. Qed.
+
+Lemma b64_dec_std_padded b : wf_bytes b -> b64_dec_std (b64_enc_padded b) = Some b.
+Proof.
+  induction b as [| x | x y | x y z t IH] using list_ind3; intro W.
+  - reflexivity.
+  - inversion W as [|? ? Hx _]; subst. unfold wf_byte in Hx.
+    destruct (byte_quanta x 0 0 Hx) as (A & _ & _ & _ & B & _); try lia.
+    cbn [b64_enc_padded b64_dec_std]. rewrite (b64_val_char _ A), (b64_val_char _ B), b64_val_eq.
+    rewrite N.eqb_refl. cbn [andb is_nil]. do 3 f_equal. lia.
+  - inversion W as [|? ? Hx W1]; subst. inversion W1 as [|? ? Hy _]; subst. unfold wf_byte in *.
+    destruct (byte_quanta x y 0 Hx Hy) as (A & B & _ & _ & _ & C); try lia.
+    cbn [b64_enc_padded b64_dec_std]. rewrite (b64_val_char _ A), (b64_val_char _ B), (b64_val_char _ C), b64_val_eq.
+    rewrite N.eqb_refl. cbn [andb is_nil]. do 2 f_equal; [lia|f_equal; lia].
+  - inversion W as [|? ? Hx W1]; subst. inversion W1 as [|? ? Hy W2]; subst. inversion W2 as [|? ? Hz W3]; subst.
+    unfold wf_byte in *.
+    destruct (byte_quanta x y z Hx Hy Hz) as (A & B & C & D & _ & _).
+    cbn [b64_enc_padded b64_dec_std]. rewrite (b64_val_char _ A), (b64_val_char _ B), (b64_val_char _ C), (b64_val_char _ D).
+    rewrite (IH W3). do 2 f_equal; [lia|f_equal; [lia|f_equal; lia]].
+Qed.
+
+(* c16_b64, first clause *)
+Lemma b64_dec_enc b : wf_bytes b -> b64url_decode (b64url_encode b) = Some b.
+Proof.
+  intro W. rewrite b64url_encode_direct. unfold b64url_decode.
+  rewrite b64_missing_padding, b64_enc_padded_no_crlf. apply b64_dec_std_padded. exact W.
+Qed.
+
+Lemma b64url_encode_injective a b : wf_bytes a -> wf_bytes b -> b64url_encode a = b64url_encode b -> a = b.
+Proof.
+  intros Wa Wb E. pose proof (b64_dec_enc a Wa) as Ha. rewrite E, (b64_dec_enc b Wb) in Ha. congruence.
+Qed.
+
+Lemma b64url_encode_no_dot b : Forall (fun c => c <> ch_dot) (b64url_encode b).
+Proof. rewrite b64url_encode_direct. apply b64_enc_no_dot. Qed.
+Lemma b64url_encode_alphabet b : Forall is_b64_char (b64url_encode b).
+Proof. rewrite b64url_encode_direct. apply b64_enc_alphabet. Qed.
+
+(* decoder output is well-formed bytes *)
+Lemma b64_dec_std_wf s : forall b, b64_dec_std s = Some b -> wf_bytes b.
+Proof.
+  assert (G : forall n s, (length s <= n)%nat -> forall b, b64_dec_std s = Some b -> wf_bytes b).
+  { induction n as [|n IH]; intros s0 L b0.
+    - destruct s0; [|cbn in L; lia]. cbn. intro E; inversion E. constructor.
+    - destruct s0 as [|c0 [|c1 [|c2 [|c3 t]]]]; cbn [b64_dec_std]; try discriminate.
+      { intro E; inversion E. constructor. }
+      destruct (b64_val c0) as [v0|] eqn:E0; [|discriminate].
+      destruct (b64_val c1) as [v1|] eqn:E1; [|discriminate].
+      apply b64_val_lt in E0, E1.
+      destruct (b64_val c2) as [v2|] eqn:E2.
+      + apply b64_val_lt in E2. destruct (b64_val c3) as [v3|] eqn:E3.
+        * apply b64_val_lt in E3. destruct (b64_dec_std t) as [r|] eqn:Er; [|discriminate].
+          intro E; inversion E; subst. cbn [length] in L.
+          assert (Wr : wf_bytes r) by (apply (IH t); [lia|exact Er]).
+          repeat constructor; unfold wf_byte; try lia. exact Wr.
+        * destruct ((c3 =? ch_eq) && is_nil t); [|discriminate].
+          intro E; inversion E; subst. repeat constructor; unfold wf_byte; lia.
+      + destruct ((c2 =? ch_eq) && (c3 =? ch_eq) && is_nil t); [|discriminate].
+        intro E; inversion E; subst. repeat constructor; unfold wf_byte; lia. }
+  intros b. apply (G (length s) s). lia.
+Qed.
+
+Lemma b64url_decode_wf s b : b64url_decode s = Some b -> wf_bytes b.
+Proof. unfold b64url_decode. apply b64_dec_std_wf. Qed.
